@@ -44,7 +44,8 @@ REGISTRY = dict(
           "dominant part (err2 uses |op v_j| instead of Expokit's |op v_{j+1}|): kernel-checked exact model run "
           "(early_accept_witness) + replay on the real code against scipy on every run. FINDING D21-C07 (open, class "
           "krylov-accept-err1-ignores-err2): err = err1 whenever err1 < err2 lets a vanishing err1 (exp(alpha) ~ 1) override "
-          "err2 >= tol; witness replayed on every run. The public krylov_exp is modelled with its own parameter list and "
+          "err2 >= tol; witness replayed on every run. FINDING D22-C07 (open, class krylov-estimate-not-shift-invariant): for "
+          "A = -i(a*1+K) with |a| >> |K| both estimates shrink like 1/|a| while the error does not. The public krylov_exp is modelled with its own parameter list and "
           "driven with distinct tolerances in both orders (public_krylov_exp_uses_callers_tolerances)."),
     note=("Trusted: Lean kernel + propext/Classical.choice/Quot.sound; Mathlib; hand-written Model.Krylov tied to the "
           "code by the tape-driven and dense correspondence of each run; torch.linalg.matrix_exp, Tensor.norm, "
@@ -179,6 +180,7 @@ def gen_weak_case(rng):
 
 KNOWN_CLASS = "krylov-early-accept-avnorm"
 KNOWN_CLASS_ERR1 = "krylov-accept-err1-ignores-err2"
+KNOWN_CLASS_SHIFT = "krylov-estimate-not-shift-invariant"
 
 
 def witness_case_err1():
@@ -223,12 +225,70 @@ def classify(case, r, its):
     c2 = dict(case, tol=-1.0, md=j + 2)
     kind2, r2, rec2 = run_impl(c2)
     pe = parse_events(rec2.events) if kind2 == "ok" else None
-    if pe is None or len(pe[1]) < j + 2:
-        return None
-    n_next = pe[1][j + 1]["n"]
-    col = its[j]["mexp"][1][:, 0]
-    e1, e2 = abs(col[j + 1]), abs(col[j + 2] * n_next)
-    return KNOWN_CLASS if not err_of(e1, e2) < case["tol"] else None
+    if pe is not None and len(pe[1]) >= j + 2:
+        n_next = pe[1][j + 1]["n"]
+        col = its[j]["mexp"][1][:, 0]
+        e1, e2 = abs(col[j + 1]), abs(col[j + 2] * n_next)
+        if not err_of(e1, e2) < case["tol"]:
+            return KNOWN_CLASS
+    # D22: the estimate is not invariant under op -> op - sigma*1 although the error is (exp(A)v only picks up a phase):
+    # recompute err1 = |[exp(T~)]_{j+1,0}| on the extended matrix with T replaced by T - mean(diag T)*1
+    arg = its[j]["mexp"][0].copy()
+    sigma = np.trace(arg[: j + 1, : j + 1]) / (j + 1)
+    arg[: j + 1, : j + 1] -= sigma * np.eye(j + 1)
+    e1s = abs(scipy.linalg.expm(arg)[j + 1, 0])
+    if abs(sigma) > 1.0 and not e1s < case["tol"]:
+        return KNOWN_CLASS_SHIFT
+    return None
+
+
+LATTICE = [0.01, 0.5, 1 - 2.0 ** -40, 1.0, 1 + 2.0 ** -40, 2.0]
+
+
+def gen_large_case(rng, tier):
+    """LARGE |A| (10 .. 1e4) with a near-invariant subspace: -i*(a*1 + K + eps*C), K block diagonal, C couples the
+    block holding the start vector to the rest. eps is swept over [0.01*tol, 100*tol*|A|] on a lattice that hits
+    `n2 = norm_tolerance` (and `n2 = norm_tolerance*|A|`) from both sides; in the 'reflect' sub-class n2 == eps
+    EXACTLY (basis start vector, power-of-two scale), so the breakdown test is exercised at its boundary.
+    norm_tolerance and exp_tolerance are distinct in 2/3 of the cases."""
+    g = np.random.default_rng(rng.getrandbits(48))
+    sub = rng.choice(["reflect2", "reflect2", "reflectN", "blocks", "blocks"])
+    a = rng.choice([10.0, 60.0, 2.0 ** 10, (2 * rng.randint(2, 40) + 1) * math.pi, 10 ** rng.uniform(1, 4)])
+    ntol = 10 ** rng.uniform(-12, -6)
+    which = rng.choice(["equal", "norm>>exp", "norm<<exp"])
+    tol = ntol if which == "equal" else (ntol * 10 ** rng.uniform(-4, -1) if which == "norm>>exp" else
+                                         min(ntol * 10 ** rng.uniform(1, 4), 1e-4))
+    f = rng.choice(LATTICE + [x * a for x in LATTICE] + [0.75 * a, 10 ** rng.uniform(-2, 2) * a ** rng.random(), 100 * a])
+    eps = f * ntol
+    nmax = 200 if tier == "thorough" else 64
+    if sub == "reflect2":
+        n = 2
+        h = np.array([[a, eps], [eps, a]], dtype=complex)
+        v = np.array([1.0, 0.0], dtype=complex) * 2.0 ** rng.randint(-6, 6)
+    elif sub == "reflectN":
+        n = rng.choice([3, 5, 16, nmax])
+        u = g.normal(size=n) + 1j * g.normal(size=n)
+        u /= np.linalg.norm(u)
+        h = a * np.eye(n) + eps * (np.eye(n) - 2 * np.outer(u, u.conj()))
+        v = (g.normal(size=n) + 1j * g.normal(size=n)) * 10 ** rng.uniform(-2, 2)
+    else:
+        n = rng.randint(3, 40)
+        k = rng.randint(1, min(4, n - 1))
+        sc = 10 ** rng.uniform(-2, 0.5)
+        h = a * np.eye(n, dtype=complex)
+        h[:k, :k] += sc * _herm(g, k, "gue")
+        h[k:, k:] += sc * _herm(g, n - k, "gue")
+        if rng.random() < 0.6:                        # resonance between a kept and a dropped level
+            h[k, k] = h[k - 1, k - 1]
+        c = g.normal(size=(k, n - k)) + 1j * g.normal(size=(k, n - k))
+        c *= eps / max(np.linalg.norm(c, 2), 1e-300)
+        h[:k, k:] += c
+        h[k:, :k] += c.conj().T
+        v = np.zeros(n, dtype=complex)
+        v[:k] = (g.normal(size=k) + 1j * g.normal(size=k)) * 10 ** rng.uniform(-2, 2)
+    return dict(cls="herm", sub="large/" + sub, n=n, a=-1j * h, v=v, shape=(n,), herm=rng.random() < 0.75, tol=tol,
+                norm_tol=ntol, md=rng.choice([10, 30, 100]), order=which, positional=rng.random() < 0.5,
+                eps_over_normtol=f, anorm=a)
 
 
 def gen_corr_case(rng, tier, small=False):
@@ -335,17 +395,15 @@ def oracle_public_run(case, pk, res, its):
     if pk != "ret":
         return None
     breakdown = bool(its) and its[-1]["n2"] < case["norm_tol"]
-    if breakdown:
-        return None
     e = scipy.linalg.expm(case["a"])
     ref = e @ case["v"]
     got = res.reshape(-1).numpy()
     nv = float(np.linalg.norm(case["v"]))
-    thr = 10 * case["tol"] * nv + 1e-9 * max(1.0, float(np.linalg.norm(e, 2))) * nv
+    thr = 10 * (case["norm_tol"] if breakdown else case["tol"]) * nv + 1e-9 * max(1.0, float(np.linalg.norm(e, 2))) * nv
     err = float(np.linalg.norm(got - ref))
     if not err <= thr:
         return (f"krylov_exp(exp_tolerance={case['tol']:.3e}, norm_tolerance={case['norm_tol']:.3e}) returned without raising and "
-                f"without happy breakdown (last n2={its[-1]['n2'] if its else None!r}) but |result-expm(A)v|={err:.3e} > "
+                f"{'with' if breakdown else 'without'} happy breakdown (last n2={its[-1]['n2'] if its else None!r}) but |result-expm(A)v|={err:.3e} > "
                 f"10*tol*|v|+rounding={thr:.3e}")
     return None
 
@@ -472,12 +530,16 @@ def oracle(case, kind, r, rec):
         ref = e @ case["v"]
         got = r.result.reshape(-1).numpy()
         nv = float(np.linalg.norm(case["v"]))
-        thr = 10 * case["tol"] * nv + 1e-9 * max(1.0, float(np.linalg.norm(e, 2))) * nv
+        # the tolerance that gated the exit taken: norm_tolerance for a happy breakdown, exp_tolerance otherwise
+        # (the two are equal inside the property's quantifier)
+        tol_eff = case["norm_tol"] if r.happy_breakdown else case["tol"]
+        thr = 10 * tol_eff * nv + 1e-9 * max(1.0, float(np.linalg.norm(e, 2))) * nv
         err = float(np.linalg.norm(got - ref))
         case["_err_over_thr"] = err / thr if thr > 0 else 0.0
         if not err <= thr:
             return (f"converged={r.converged} happy_breakdown={r.happy_breakdown} iterations={r.iteration_count} but "
-                    f"|result-expm(A)v|={err:.3e} > 10*tol*|v|+rounding={thr:.3e} (tol={case['tol']:.3e}, |v|={nv:.3e})")
+                    f"|result-expm(A)v|={err:.3e} > 10*tol*|v|+rounding={thr:.3e} (exp_tolerance={case['tol']:.3e}, "
+                    f"norm_tolerance={case['norm_tol']:.3e}, |v|={nv:.3e})")
     return None
 
 
@@ -541,7 +603,7 @@ def check(rep: Report, tier: str, seed: int) -> None:
         except Exception as e:
             rep.fail(f"real krylov_exp_impl raised {type(e).__name__}: {e}", _ser(case))
             return
-        msg = oracle(case, kind, r, rec) if case.get("in_class", True) else None
+        msg = oracle(case, kind, r, rec) if (case.get("in_class", True) or case["sub"].startswith("large/")) else None
         if msg is None and case.get("in_class", True):
             msg = oracle_public(case, r)
         worst = max(worst, case.get("_err_over_thr", 0.0))
@@ -618,6 +680,13 @@ def check(rep: Report, tier: str, seed: int) -> None:
 
     for i in range(70 if tier == "quick" else 800):
         add_pub(gen_pub_case(rng, tier))
+    for i in range(90 if tier == "quick" else 1200):      # large |A|, near-invariant subspaces, boundary lattice
+        c = gen_large_case(rng, tier)
+        rep.hist("large_eps_over_normtol", "%.0e" % c["eps_over_normtol"])
+        if i % 2 == 0:
+            add(c)
+        else:
+            add_pub(c)
     rep.extra["worst_error_over_threshold"] = round(worst, 6)
 
     import time as _t
